@@ -67,6 +67,7 @@ loop:
 	for {
 		select {
 		case e := <-gateCh:
+			stepStart.Store(time.Now().UnixNano()) // progress: the watchdog limit applies to one pause, not to the whole schedule
 			kind := map[int]string{verifhook.EvSlotStore: "store", verifhook.EvGotLock: "lock", verifhook.EvUnlock: "unlock",
 				verifhook.EvPfWrite: "pf", verifhook.EvLinkWrite: "link", verifhook.EvRollback: "rollback"}[e.ev]
 			n := abiName{}
